@@ -235,6 +235,28 @@ fn hcode(x: T Hash) -> int {
 fn addup(a: T Num, b: T) -> T {
   a + b
 }
+fn lshow(x: T ToString) -> string {
+  let g = () -> "<" .. x .. ">"
+  g()
+}
+fn lshow2(x: T ToString) -> string {
+  let h = (z: int) -> {
+    let k = () -> show(x) .. z
+    k()
+  }
+  h(7)
+}
+fn tshow(x: T ToString) -> string {
+  let c: channel<string> = channel()
+  task {
+    c.write("<" .. x .. ">")
+  }
+  c.read()
+}
+fn lsame(a: T Equal, b: T) -> bool {
+  let g = () -> a == b
+  g()
+}
 "#;
 
 impl Gv {
@@ -466,6 +488,11 @@ pub enum Call {
     Ordered(Gv, Gv),
     Dup(Gv),
     ApplyShow(Gv),
+    /// a lambda / nested lambda / task inside a generic function that captures the generic parameter:
+    /// 0 lshow, 1 lshow2, 2 tshow
+    ClosShow(u8, Gv),
+    /// a lambda capturing two generic parameters and using the constraint's operator
+    ClosSame(Gv, Gv),
     First(Vec<Gv>),
     Hcode(Gv),
     AddUp(i64, i64, i64, i64),
@@ -552,6 +579,30 @@ fn emit(c: &Call, k: usize, m: &mut M, spec_fns: &mut Vec<String>) -> Option<(St
                 return None;
             }
             Some((format!("println(apply((q: {}) -> show(q), {}))\n", v.ty(), v.lit()), format!("println({aname}((q: {}) -> {f1}(q), {}))\n", v.ty(), v.lit())))
+        }
+        Call::ClosShow(which, v) => {
+            let t = v.ty();
+            let (g, body, out) = match which % 3 {
+                0 => ("lshow", "let g = () -> \"<\" .. x .. \">\"\n  g()".to_string(), format!("<{}>\n", v.render())),
+                1 => {
+                    let f1 = spec("show", &[("x", t.clone())], "string".into(), "\"<\" .. x .. \">\"", spec_fns);
+                    ("lshow2", format!("let h = (z: int) -> {{\n    let k = () -> {f1}(x) .. z\n    k()\n  }}\n  h(7)"), format!("<{}>7\n", v.render()))
+                }
+                _ => ("tshow", "let c: channel<string> = channel()\n  task {\n    c.write(\"<\" .. x .. \">\")\n  }\n  c.read()".to_string(), format!("<{}>\n", v.render())),
+            };
+            let fname = format!("{g}_c{k}");
+            spec_fns.push(format!("fn {fname}(x: {t}) -> string {{\n  {body}\n}}\n"));
+            m.out.push_str(&out);
+            Some((format!("println({g}({}))\n", v.lit()), format!("println({fname}({}))\n", v.lit())))
+        }
+        Call::ClosSame(a, b) => {
+            if !has_equal(a) || a.ty() != b.ty() {
+                return None;
+            }
+            let f = spec("lsame", &[("a", a.ty()), ("b", a.ty())], "bool".into(), "let g = () -> a == b\n  g()", spec_fns);
+            let r = m.eq(a, b);
+            m.out.push_str(&format!("{r}\n"));
+            Some((format!("println(lsame({}, {}))\n", a.lit(), b.lit()), format!("println({f}({}, {}))\n", a.lit(), b.lit())))
         }
         Call::First(vs) => {
             if vs.is_empty() || vs.iter().any(|x| x.ty() != vs[0].ty()) {
@@ -714,7 +765,7 @@ impl Prop for Dispatch {
         "dispatch"
     }
     fn rule(&self) -> &'static str {
-        "one case = 4..24 calls over user types (Ua, Ub, Uc, Vec2, Cnt, Grid) whose Equal / Ord / ToString / Clone / Hash / Num / Iterable+Iterator / Index implementations print a tag, and built-in types: generic functions (show, wrap_show, same, differ, maxof, ordered, dup, apply with a lambda calling a generic function, first, hcode, addup) instantiated at ints, strings, bools, user types, arrays, tuples and options; operators, `for`, `x[i]`, `x[i] +=`, method syntax and Iface.method(x); expected output (tag sequence and results) from a harness-side model of every implementation including the prelude's derived Equal/Ord/Hash/Clone for arrays and tuples; the same calls with hand-specialised copies of the generic functions must print the same; non-trivial = a generic function is instantiated at >= 2 different types, one of them a user type; distinct by case"
+        "one case = 4..24 calls over user types (Ua, Ub, Uc, Vec2, Cnt, Grid) whose Equal / Ord / ToString / Clone / Hash / Num / Iterable+Iterator / Index implementations print a tag, and built-in types: generic functions (show, wrap_show, same, differ, maxof, ordered, dup, apply with a lambda calling a generic function, first, hcode, addup, and lshow / lshow2 / tshow / lsame whose bodies are a lambda, a nested lambda or a task block capturing the generic parameters) instantiated at ints, strings, bools, user types, arrays, tuples and options; operators, `for`, `x[i]`, `x[i] +=`, method syntax and Iface.method(x); expected output (tag sequence and results) from a harness-side model of every implementation including the prelude's derived Equal/Ord/Hash/Clone for arrays and tuples; the same calls with hand-specialised copies of the generic functions must print the same; non-trivial = a generic function is instantiated at >= 2 different types, one of them a user type; distinct by case"
     }
     fn n_cases(&self, tier: Tier) -> u32 {
         tier.pick(5000, 50000)
@@ -730,6 +781,9 @@ impl Prop for Dispatch {
             2 => pair_strategy().prop_map(|(a, b)| Call::Ordered(a, b)),
             2 => gv_strategy().prop_map(Call::Dup),
             2 => gv_strategy().prop_map(Call::ApplyShow),
+            3 => (0u8..3, gv_strategy()).prop_map(|(w, v)| Call::ClosShow(w, v)),
+            1 => (gv_strategy(), gv_strategy()).prop_map(|(a, b)| Call::ClosSame(a, b)),
+            1 => gv_strategy().prop_map(|a| Call::ClosSame(a.clone(), a)),
             1 => (gv_strategy(), 1usize..3).prop_map(|(v, k)| Call::First(vec![v; k])),
             2 => gv_strategy().prop_map(Call::Hcode),
             1 => (n.clone(), n.clone(), n.clone(), n.clone()).prop_map(|(a, b, c, d)| Call::AddUp(a, b, c, d)),
@@ -762,6 +816,8 @@ impl Prop for Dispatch {
                         Call::Ordered(a, _) => ("ordered", Some(a.ty())),
                         Call::Dup(v) => ("dup", Some(v.ty())),
                         Call::ApplyShow(v) => ("apply", Some(v.ty())),
+                        Call::ClosShow(w, v) => (["lshow", "lshow2", "tshow"][(*w % 3) as usize], Some(v.ty())),
+                        Call::ClosSame(a, _) => ("lsame", Some(a.ty())),
                         Call::First(v) => ("first", Some(v[0].ty())),
                         Call::Hcode(v) => ("hcode", Some(v.ty())),
                         Call::AddUp(..) => ("addup", Some("Vec2+int".into())),
